@@ -121,7 +121,7 @@ def setSlot : SlotScope → Str → SlotContent → SlotScope
 /-- one child of the include tag, in `extractSlotContent`'s walk: (named slots so far, default-slot content so far) -/
 def slotStep (acc : SlotScope × List Node) (k : Node) : SlotScope × List Node :=
   match k with
-  | .text d => if trimSpace d != [] then (acc.1, acc.2 ++ [.text d]) else acc
+  | .text d => if !blankText d then (acc.1, acc.2 ++ [.text d]) else acc
   | .elem tag attrs ks =>
     if tag == S "template" && hasVSlot attrs then (setSlot acc.1 (slotNameOf attrs) { nodes := ks, tmpl := some (attrs, ks) }, acc.2)
     else (acc.1, acc.2 ++ [k])
